@@ -115,6 +115,12 @@ def pair_to_coq(c, o):
         qvec(c["ra"]), qvec(c["rb"]), qmat(c["X"]), qmat(o["oa"]), qmat(o["ob"]))
 
 
+def pregen(ctx):
+    """tie (T): re-translate nodes/reservoirs/base.py + utils/random.py (noise) of the tree under test into coq/gen/Gen_reservoir.v"""
+    from vlib import gen
+    return gen.pregen_units(["reservoir"])
+
+
 def correspondence(ctx):
     rng = ctx.rng("corr")
     cases = [gen_pair(rng, ctx.thorough) for _ in range(ctx.n(80, 800))]
